@@ -165,6 +165,19 @@ SfiOf(rate) == CASE rate = 96000 -> 0 [] rate = 88200 -> 1 [] rate = 64000 -> 2 
                  [] rate = 11025 -> 10 [] rate = 8000 -> 11 [] rate = 7350 -> 12 [] OTHER -> -1
 ChanCfgOf(ch) == IF ch \in 1..6 THEN ch ELSE IF ch = 8 THEN 7 ELSE -1
 
+(* AudioSpecificConfig (ISO/IEC 14496-3 1.6.2.1): number of bits the syntax needs for the object type found *)
+(* in the first byte(s); 0 = cannot tell.  asc = the DecoderSpecificInfo payload.                              *)
+AscBitsNeeded(asc) ==
+    IF Len(asc) < 2 THEN 0
+    ELSE LET aot == asc[1] \div 8
+             sfi == (asc[1] % 8) * 2 + asc[2] \div 128
+             base == 5 + 4 + (IF sfi = 15 THEN 24 ELSE 0) + 4
+         IN IF aot = 31 \/ aot = 0 THEN 0
+            ELSE IF aot \in {5, 29}             \* explicit SBR / PS signalling: extension sfi + inner object type + GASpecificConfig
+                 THEN base + 4 + 5 + 3
+            ELSE IF aot \in {1, 2, 3, 4, 6, 7, 17, 19, 20, 21, 22, 23} THEN base + 3   \* GASpecificConfig: 3 flag bits at least
+            ELSE base
+
 EsdsSigs(prop, site, b, rate, ch) ==
     IF Len(b) < 4 + 2 + 3 + 2 + 13 + 2 + 2 + 3 THEN {LSig(prop, "Esds", site, "truncated")}
     ELSE LET es == 5      \* 1-based position of the ES_Descriptor tag
@@ -184,6 +197,9 @@ EsdsSigs(prop, site, b, rate, ch) ==
                       THEN {LSig(prop, "Esds", site, "sl-config")} ELSE {})
                 \cup (IF b[dc + 2] # 64 THEN {LSig(prop, "Esds", site, "objectTypeIndication")} ELSE {})
                 \cup (IF b[dc + 3] # 21 THEN {LSig(prop, "Esds", site, "streamType")} ELSE {})
+                \cup (LET asc == Slice(b, dsi + 2, dsi + 1 + dsiLen) IN
+                      IF dsiLen >= 2 /\ asc[1] \div 8 = 0 THEN {LSig(prop, "Esds", site, "audio-object-type-null")}
+                      ELSE IF dsiLen >= 2 /\ AscBitsNeeded(asc) > 8 * dsiLen THEN {LSig(prop, "Esds", site, "audio-specific-config-truncated")} ELSE {})
                 \cup (IF dsiLen < 2 THEN {LSig(prop, "Esds", site, "asc-length")}
                       ELSE LET asc0 == b[dsi + 2]  asc1 == b[dsi + 3]
                                sfi == (asc0 % 8) * 2 + asc1 \div 128
